@@ -18,7 +18,7 @@ import (
 )
 
 // substring-related keywords on purpose: \Seenish ⊃ \Seen, \Deletedx ⊃ \Deleted, $NotJunk ⊃ Junk, NonJunkX …
-var alphabet = []string{`\Seen`, `\Answered`, `\Flagged`, `\Deleted`, `\Draft`, `\Recent`, `\Seenish`, `\Deletedx`, "kw", "kw2", "$NotJunk", "$Forwarded", "Seen", "Flag"}
+var alphabet = []string{`\Seen`, `\Answered`, `\Flagged`, `\Deleted`, `\Draft`, `\Recent`, `\Seenish`, `\Deletedx`, "kw", "kw2", "$NotJunk", "$Forwarded", "Seen", "Flag", "Junk", "NonJunk"}
 
 func pickFlags(rng *hx.Rng, max int) []string {
 	n := rng.Intn(max + 1)
@@ -46,7 +46,7 @@ func setOf(s string) string {
 func main() {
 	o, rep := hx.Init("C10")
 	hx.Quiet()
-	rep.Rule = "pure: CalculateNewFlags (message and utils copies) on random current/new flag lists from a 14-flag alphabet with substring-related keywords, three modes, compared as sets with the Lean algebra; histories: STORE/UID STORE in all modes and .SILENT, COPY, APPEND with flags, EXAMINE followed by mutating commands, every op's result and the state seen by a second session compared with the model, plus STATUS UNSEEN / [UNSEEN n] / SEARCH SEEN,UNSEEN,DELETED,KEYWORD against token membership of the observed flag sets. Distinct by op text; a history is non-trivial when it contains at least two flag changes"
+	rep.Rule = "pure: CalculateNewFlags (message and utils copies) on random current/new flag lists from a 16-flag alphabet (incl. the Junk / NonJunk keywords that trigger server-side moves) with substring-related keywords, three modes, compared as sets with the Lean algebra; histories: STORE/UID STORE in all modes and .SILENT, COPY, APPEND with flags, EXAMINE followed by mutating commands, every op's result and the state seen by a second session compared with the model, plus STATUS UNSEEN / [UNSEEN n] / SEARCH SEEN,UNSEEN,DELETED,KEYWORD against token membership of the observed flag sets. Distinct by op text; a history is non-trivial when it contains at least two flag changes"
 	rng := hx.NewRng(o.Seed)
 	if o.Replay == "" {
 		pure(o, rep, rng)
